@@ -33,13 +33,18 @@ E["C16"] = dict(
          "recorded in DESIGN.md, outside the four predefined styles), cbsert; comparator abstracted to < on Nat; for-in model language is ForIn.Stmt.",
     tech="Lean 4 proof (refinement to an ideal dictionary + invariants by induction over histories) + property oracle (C-side invariant flags, python dict) + shape-level differential correspondence")
 E["C19"] = dict(
-    text="Lean 4 theorems (Props/C19.lean, 19) about an executable transcription of lib/arr.c: refinement of insert/upsert/update/delete/uplete/"
+    text="Lean 4 theorems (Props/C19.lean, 30) about an executable transcription of lib/arr.c: refinement of insert/upsert/update/delete/uplete/"
          "clear/setcapa to the list-of-optional-values spec, size/tally/capacity invariant for every reachable history and allocator behaviour, "
-         "termination of the growth and retry loops (accepted by Lean's termination checker) with growth_reaches_index, heap order and contents "
-         "preserved by pushheap/deleteheap/updateheap for every heap history. Tied to the working tree by a differential harness "
-         "(real hawk_arr_* under ASan vs compiled Lean driver, full state dumps) and hawk-level hawk::array programs; the property is first "
-         "evaluated on the implementation's own dumps against an ideal python list.",
-    note="Not modelled: slot cells beyond size, the INLINE copier, heap_pos_offset back-pointers.",
+         "termination of the growth and retry loops (accepted by Lean's termination checker) with growth_reaches_index, the capacity always one "
+         "whose table size fits the 64-bit word (reachable_fits), a position no table can hold refused at once (insert_far_refused), the retry "
+         "loop asking the allocator at most log2(gap)+2 times (retry_requests_logarithmic), heap order and contents preserved by "
+         "pushheap/deleteheap/updateheap for every heap history, and for heaps with position back-pointers (heap_pos_offset) a refinement to the "
+         "key-only heap plus the invariant that every item records the slot it is in. Tied to the working tree by a differential harness "
+         "(real hawk_arr_* under ASan vs compiled Lean driver, full state dumps incl. each item's pos field; machine-word extremes with scripted "
+         "allocator refusals; retry scripts) and hawk-level hawk::array / str::splita / @argv programs incl. subscripts no table can hold; the "
+         "property is first evaluated on the implementation's own dumps against an ideal python list.",
+    note="Not modelled: slot cells beyond size, the INLINE copier, pointer aliasing inside a sift (a slot store and its HEAP_UPDATE_POS are one model "
+         "step), hawk_arr_walk/rwalk; 64-bit words and 8-byte slot pointers assumed (asserted by the harness).",
     tech="Lean 4 proof (invariant by induction over operations + refinement to a list spec, termination by measure) + property oracle + differential correspondence")
 E["C20"] = dict(
     text="Lean 4 theorems (Props/C20.lean, 24) about an executable transcription of lib/xma.c (boundary tags as stored, free lists as ordered "
